@@ -763,8 +763,22 @@ fn build_request(op: &Value) -> Result<http::Request<()>, String> {
 fn request_task(tc: TaskCtx, sender_slot: Rc<RefCell<Option<Sender>>>, prog: Vec<Value>) -> Pin<Box<dyn Future<Output = ()>>> {
     Box::pin(async move {
         let mut prog: VecDeque<Value> = prog.into();
+        // the clone this task holds; its creation and its end are events (the client closes the connection with the last handle)
+        struct Held {
+            tc: TaskCtx,
+            s: Sender,
+        }
+        impl Drop for Held {
+            fn drop(&mut self) {
+                // logged before the field `s` is dropped
+                self.tc.log.push(json!({"ev": "sender_dropped", "task": self.tc.name}));
+            }
+        }
         let mut sender = match sender_slot.borrow().as_ref() {
-            Some(s) => s.clone(),
+            Some(s) => {
+                tc.log.push(json!({"ev": "sender_cloned", "task": tc.name}));
+                Held { tc: tc.clone(), s: s.clone() }
+            }
             None => {
                 tc.ret("send_request", json!({"k": "no_sender"}));
                 return;
@@ -781,7 +795,7 @@ fn request_task(tc: TaskCtx, sender_slot: Rc<RefCell<Option<Sender>>>, prog: Vec
                             return;
                         }
                     };
-                    let r = tc.call("send_request", "open_bidi", sender.send_request(req)).await;
+                    let r = tc.call("send_request", "open_bidi", sender.s.send_request(req)).await;
                     match r {
                         Ok(stream) => {
                             let sid = stream.id().into_inner();
